@@ -1,5 +1,6 @@
 (* C01 — coordinate addressing *)
 open Model
+type string = Stdlib.String.t  (* Model defines Coq's string inductive; keep OCaml's name *)
 open Proto
 
 let all_nonneg l = List.for_all (fun x -> x >= 0) l
